@@ -152,7 +152,7 @@ def make_body(kind0, what):
                     if kind == "Polyhedron":
                         faces = [[int(i) for i in f] for f in core.faces]
                     else:
-                        faces = SH.convex_facets(SH.CONVEX["wedge"] if kind == "ConvexPolyhedron" else SH.CONVEX["pyramid"])
+                        faces = SH.convex_facets(SH.CONVEX["pyramid"] if kind == "ConvexPolyhedron" else SH.CONVEX["pyramid"])
                     tris = [(verts0[a], verts0[b], verts0[c]) for f in faces for a, b, c in SH.fan(f)]
                     Vol, m1, m2 = O.polyhedron_moments(tris)
                     cen = [m1[k] / Vol for k in range(3)]
